@@ -102,6 +102,10 @@ pub(crate) fn append(mut args: ArgumentResult, visitor: &mut Visitor) -> SassRes
     args.max_args(3)?;
     let (mut list, sep, brackets) = match args.get_err(0, "list")? {
         Value::List(v, sep, b) => (v, sep, b),
+        // maps count as comma-separated lists of (key value) pairs, as for every list function
+        Value::Map(m) if !m.is_empty() => (m.as_list(), ListSeparator::Comma, Brackets::None),
+        Value::Map(..) => (Vec::new(), ListSeparator::Undecided, Brackets::None),
+        Value::ArgList(v) => (v.elems, ListSeparator::Comma, Brackets::None),
         v => (vec![v], ListSeparator::Undecided, Brackets::None),
     };
     let val = args.get_err(1, "val")?;
